@@ -77,19 +77,19 @@ def PlayerState.full_occupancy (occupancy : List UInt64) : Option UInt64 := do
 def opposite_color (color_bits : Int) : Option Int := do
   chk .u32 (1 - color_bits)
 
-/-- `const fn is_white_turn(&self) -> bool` in `impl Bitboard` (board/src/board.rs:1073).
+/-- `const fn is_white_turn(&self) -> bool` in `impl Bitboard` (board/src/board.rs:1065).
 * `turn` = field `self.turn: u32`
 `none` = panic (or out of fuel). -/
 def Bitboard.is_white_turn (turn : Int) : Option Bool := do
   pure (decide (turn = WHITE))
 
-/-- `const fn opposite_turn(&self) -> ColorBits` in `impl Bitboard` (board/src/board.rs:1108).
+/-- `const fn opposite_turn(&self) -> ColorBits` in `impl Bitboard` (board/src/board.rs:1100).
 * `turn` = field `self.turn: u32`
 `none` = panic (or out of fuel). -/
 def Bitboard.opposite_turn (turn : Int) : Option Int := do
   opposite_color turn
 
-/-- `fn _is_square_in_check(color_bits: ColorBits, passive: &PlayerState, king_square_shift: u32, full_occupancy: OccupancyBits) -> bool` in `impl Bitboard` (board/src/board.rs:872).
+/-- `fn _is_square_in_check(color_bits: ColorBits, passive: &PlayerState, king_square_shift: u32, full_occupancy: OccupancyBits) -> bool` in `impl Bitboard` (board/src/board.rs:864).
 * `color_bits` = parameter `color_bits: u32`
 * `passive` = parameter `passive: PlayerState`
 * `king_square_shift` = parameter `king_square_shift: u32`
@@ -121,7 +121,7 @@ def Bitboard._is_square_in_check (color_bits : Int) (passive : Inkayaku.Rs.Playe
           let king_attacks := (KING_NONMAGICS_get_attacks king_square_shift)
           pure (decide ((king_attacks &&& (← PlayerState.kings passive.occupancy)) ≠ (0 : UInt64)))
 
-/-- `fn _is_in_check_by_bits(&self, color_bits: ColorBits) -> bool` in `impl Bitboard` (board/src/board.rs:846).
+/-- `fn _is_in_check_by_bits(&self, color_bits: ColorBits) -> bool` in `impl Bitboard` (board/src/board.rs:838).
 * `white` = field `self.white: PlayerState`
 * `black` = field `self.black: PlayerState`
 * `color_bits` = parameter `color_bits: u32`
@@ -137,7 +137,7 @@ def Bitboard._is_in_check_by_bits (white : Inkayaku.Rs.PlayerState) (black : Ink
   let full_occupancy : UInt64 := (← PlayerState.full_occupancy active.occupancy) ||| (← PlayerState.full_occupancy passive.occupancy)
   Bitboard._is_square_in_check color_bits passive (u64Tz (← PlayerState.kings active.occupancy)) full_occupancy ROOK_MAGICS_get_attacks BISHOP_MAGICS_get_attacks KNIGHT_NONMAGICS_get_attacks WHITE_PAWN_NONMAGICS_get_attacks BLACK_PAWN_NONMAGICS_get_attacks KING_NONMAGICS_get_attacks
 
-/-- `fn is_valid(&self) -> bool` in `impl Bitboard` (board/src/board.rs:834).
+/-- `fn is_valid(&self) -> bool` in `impl Bitboard` (board/src/board.rs:826).
 * `white` = field `self.white: PlayerState`
 * `black` = field `self.black: PlayerState`
 * `turn` = field `self.turn: u32`
@@ -151,7 +151,7 @@ def Bitboard._is_in_check_by_bits (white : Inkayaku.Rs.PlayerState) (black : Ink
 def Bitboard.is_valid (white : Inkayaku.Rs.PlayerState) (black : Inkayaku.Rs.PlayerState) (turn : Int) (ROOK_MAGICS_get_attacks : Int → UInt64 → UInt64) (BISHOP_MAGICS_get_attacks : Int → UInt64 → UInt64) (KNIGHT_NONMAGICS_get_attacks : Int → UInt64) (WHITE_PAWN_NONMAGICS_get_attacks : Int → UInt64) (BLACK_PAWN_NONMAGICS_get_attacks : Int → UInt64) (KING_NONMAGICS_get_attacks : Int → UInt64) : Option Bool := do
   pure (!(← Bitboard._is_in_check_by_bits white black (← Bitboard.opposite_turn turn) ROOK_MAGICS_get_attacks BISHOP_MAGICS_get_attacks KNIGHT_NONMAGICS_get_attacks WHITE_PAWN_NONMAGICS_get_attacks BLACK_PAWN_NONMAGICS_get_attacks KING_NONMAGICS_get_attacks))
 
-/-- `fn is_current_in_check(&self) -> bool` in `impl Bitboard` (board/src/board.rs:838).
+/-- `fn is_current_in_check(&self) -> bool` in `impl Bitboard` (board/src/board.rs:830).
 * `white` = field `self.white: PlayerState`
 * `black` = field `self.black: PlayerState`
 * `turn` = field `self.turn: u32`
@@ -165,7 +165,7 @@ def Bitboard.is_valid (white : Inkayaku.Rs.PlayerState) (black : Inkayaku.Rs.Pla
 def Bitboard.is_current_in_check (white : Inkayaku.Rs.PlayerState) (black : Inkayaku.Rs.PlayerState) (turn : Int) (ROOK_MAGICS_get_attacks : Int → UInt64 → UInt64) (BISHOP_MAGICS_get_attacks : Int → UInt64 → UInt64) (KNIGHT_NONMAGICS_get_attacks : Int → UInt64) (WHITE_PAWN_NONMAGICS_get_attacks : Int → UInt64) (BLACK_PAWN_NONMAGICS_get_attacks : Int → UInt64) (KING_NONMAGICS_get_attacks : Int → UInt64) : Option Bool := do
   Bitboard._is_in_check_by_bits white black turn ROOK_MAGICS_get_attacks BISHOP_MAGICS_get_attacks KNIGHT_NONMAGICS_get_attacks WHITE_PAWN_NONMAGICS_get_attacks BLACK_PAWN_NONMAGICS_get_attacks KING_NONMAGICS_get_attacks
 
-/-- `fn is_in_check(&self, color: &Color) -> bool` in `impl Bitboard` (board/src/board.rs:842).
+/-- `fn is_in_check(&self, color: &Color) -> bool` in `impl Bitboard` (board/src/board.rs:834).
 * `white` = field `self.white: PlayerState`
 * `black` = field `self.black: PlayerState`
 * `color_index` = field `color.index: u32`
